@@ -96,6 +96,13 @@ def verify_all(reg, contracts, engine_cls=Engine, timeout_ms=10000, jobs=None, d
             continue
         eng = (c.extra.get("engine") or engine_cls)(reg)
         try:
+            if c.extra.get("block"):
+                # block contract: a contiguous statement sequence of the real function, extracted mechanically
+                import hashlib
+                from .num_engine import extract_block
+                fdef = extract_block(fdef, c.extra["block"], list(c.params))
+                rep.span = (fdef.body[0].lineno, fdef.body[-1].end_lineno)
+                rep.sha = hashlib.sha256("\n".join(sm.lines[rep.span[0] - 1:rep.span[1]]).encode()).hexdigest()[:16]
             rep.obligations = eng.verify(c, fdef, cls)
             rep.trivial_frames = getattr(eng, "trivial_frames", 0)
         except StaleContract as ex:
